@@ -361,6 +361,189 @@ theorem C01_seq_collection (k : SeqKind) (num : Option Nat) (fmax : Nat) (e : Bo
   have hi := C01_seq_inv k num fmax e ops
   exact ⟨fun id hid => by rw [hi.total]; exact hi.csub id hid, hi.cinv.nodup, hi.cinv.count⟩
 
+/-! ## Round 3: the gate witness is sound, "any other message" is a frame op, no id is ever lost -/
+
+/-- Soundness of the harness' gate rule (it passes `gate=1` for a FAILED op exactly when its own bookkeeping says the
+supply guards reject): whenever the supply guards of an op reject, the op fails — for every gate outcome and every
+randomness witness. So a failure the harness attributes to supply is never one the model could have let through. -/
+theorem C01_supplyRejects_sound (s : Fixed) (op : FOp) (h : s.supplyRejects op = true) : s.step op = none := by
+  cases op with
+  | mint g p o =>
+    have hz : s.mintable = 0 := by simpa [Fixed.supplyRejects] using h
+    cases g <;> simp [Fixed.step, Fixed.takeAt, hz]
+  | mintFor g id o =>
+    simp only [Fixed.supplyRejects, Bool.or_eq_true, decide_eq_true_eq] at h
+    cases g
+    · simp [Fixed.step]
+    · simp only [Fixed.step, if_true, Fixed.takeId]
+      rcases h with ((h | h) | h) | h
+      · simp [h]
+      · by_cases hz : s.mintable = 0 <;> simp [hz, h]
+      · by_cases hz : s.mintable = 0 <;> simp [hz, h]
+      · by_cases hz : s.mintable = 0
+        · simp [hz]
+        · by_cases hr : id = 0 ∨ id > s.n <;> simp [hz, hr, h]
+  | shuffle g perm =>
+    have hz : s.mintable = 0 := by simpa [Fixed.supplyRejects] using h
+    cases g <;> simp [Fixed.step, Fixed.shuffle, hz]
+  | purge g =>
+    have hz : s.mintable ≠ 0 := by simpa [Fixed.supplyRejects] using h
+    cases g <;> simp [Fixed.step, Fixed.purge, hz]
+  | burnRemaining g =>
+    have hz : s.mintable = 0 := by simpa [Fixed.supplyRejects] using h
+    cases g <;> simp [Fixed.step, Fixed.burnAll, hz]
+  | collBurn g id =>
+    have hz : id ∉ s.coll.ids := by simpa [Fixed.supplyRejects] using h
+    cases g <;> simp [Fixed.step, Coll.burn, hz]
+  | collTransfer g id to =>
+    have hz : id ∉ s.coll.ids := by simpa [Fixed.supplyRejects] using h
+    cases g <;> simp [Fixed.step, Coll.transfer, hz]
+  | noise g => simp [Fixed.supplyRejects] at h
+
+/-- … and conversely a closed gate is the ONLY other reason for a non-mint op to fail: with the gate open, Purge,
+BurnRemaining, holder burns / transfers and `noise` succeed exactly when the supply guards do not reject (for Mint /
+MintFor / Shuffle the witness must also be valid: `C01_mintFor_available_succeeds`, `C01_shuffle_rejects_non_permutation`). -/
+theorem C01_supplyRejects_complete (s : Fixed) (op : FOp)
+    (hop : match op with | .purge g | .burnRemaining g | .collBurn g _ | .collTransfer g _ _ | .noise g => g = true
+                         | _ => False)
+    (h : s.supplyRejects op = false) : (s.step op).isSome = true := by
+  cases op with
+  | mint g p o => exact absurd hop id
+  | mintFor g i o => exact absurd hop id
+  | shuffle g perm => exact absurd hop id
+  | purge g =>
+    have hz : s.mintable = 0 := by simpa [Fixed.supplyRejects] using h
+    subst hop; simp [Fixed.step, Fixed.purge, hz]
+  | burnRemaining g =>
+    have hz : s.mintable ≠ 0 := by simpa [Fixed.supplyRejects] using h
+    subst hop; simp [Fixed.step, Fixed.burnAll, hz]
+  | collBurn g i =>
+    have hz : i ∈ s.coll.ids := by simpa [Fixed.supplyRejects] using h
+    subst hop; simp [Fixed.step, Coll.burn, hz]
+  | collTransfer g i to =>
+    have hz : i ∈ s.coll.ids := by simpa [Fixed.supplyRejects] using h
+    subst hop; simp [Fixed.step, Coll.transfer, hz]
+  | noise g => subst hop; simp [Fixed.step]
+
+/-- Frame: an op that is not Mint / MintTo / MintFor / completing deposit / Shuffle / BurnRemaining — i.e. Purge, a
+holder's burn or transfer, and `noise` = ANY other message (SetWhitelist, price / time / limit / discount updates, sudo
+UpdateStatus, migrate, collection calls by non-minters, a message variant nobody has modelled) — leaves the whole
+minter-side supply state alone.  This is a statement about the MODEL's op set; that the contracts' remaining messages
+really are such frame ops is what the harness validates by sending every `ExecuteMsg` / `SudoMsg` variant it finds in the
+crates' JSON schemas (known or not) and `migrate` under the full observation vector and the monitors. -/
+theorem C01_frame (s s' : Fixed) (op : FOp) (hop : op.touchesSupply = false) (h : s.step op = some s') :
+    s'.pos = s.pos ∧ s'.mintable = s.mintable ∧ s'.minted = s.minted ∧ s'.burned = s.burned ∧ s'.n = s.n := by
+  cases op with
+  | mint g p o => simp [FOp.touchesSupply] at hop
+  | mintFor g i o => simp [FOp.touchesSupply] at hop
+  | shuffle g perm => simp [FOp.touchesSupply] at hop
+  | burnRemaining g => simp [FOp.touchesSupply] at hop
+  | purge g => obtain ⟨rfl, _⟩ := C01_purge_frame s s' g h; exact ⟨rfl, rfl, rfl, rfl, rfl⟩
+  | collBurn g i =>
+    cases g <;> simp [Fixed.step] at h
+    obtain ⟨c, _, rfl⟩ := h; exact ⟨rfl, rfl, rfl, rfl, rfl⟩
+  | collTransfer g i to =>
+    cases g <;> simp [Fixed.step] at h
+    obtain ⟨c, _, rfl⟩ := h; exact ⟨rfl, rfl, rfl, rfl, rfl⟩
+  | noise g => cases g <;> simp [Fixed.step] at h; subst h; exact ⟨rfl, rfl, rfl, rfl, rfl⟩
+
+/-- `noise` changes nothing at all (collection included) -/
+theorem C01_noise_frame (s s' : Fixed) (g : Bool) (h : s.step (.noise g) = some s') : s' = s := by
+  cases g <;> simp [Fixed.step] at h; exact h.symm
+
+/-- history level: any interleaving of frame ops (successful or not), of any length, leaves the position map, the
+counter, the mint log and the burn count exactly as they were -/
+theorem C01_frame_history (s : Fixed) (ops : List FOp) (hops : ∀ op ∈ ops, op.touchesSupply = false) :
+    (s.run ops).pos = s.pos ∧ (s.run ops).mintable = s.mintable ∧ (s.run ops).minted = s.minted ∧
+      (s.run ops).burned = s.burned ∧ (s.run ops).n = s.n := by
+  induction ops generalizing s with
+  | nil => exact ⟨rfl, rfl, rfl, rfl, rfl⟩
+  | cons op ops ih =>
+    rw [Fixed.run_cons]
+    have hrest : ∀ o ∈ ops, o.touchesSupply = false := fun o ho => hops o (List.mem_cons_of_mem _ ho)
+    unfold Fixed.step'
+    cases h : s.step op with
+    | none => simpa using ih s hrest
+    | some s' =>
+      simp only [Option.getD_some]
+      obtain ⟨a1, a2, a3, a4, a5⟩ := C01_frame s s' op (hops op (List.mem_cons_self)) h
+      obtain ⟨b1, b2, b3, b4, b5⟩ := ih s' hrest
+      exact ⟨b1.trans a1, b2.trans a2, b3.trans a3, b4.trans a4, b5.trans a5⟩
+
+/-- No id is ever lost or invented: in every reachable state, as long as nothing was burned, EVERY id of `1..=n` is
+either still mintable or in the mint log (never both: `C01_collection`), so "remaining = 1..=n minus minted" as sets;
+in general the three numbers add up to `n`. -/
+theorem C01_no_id_lost (n : Nat) (perm : List Nat) (s : Fixed) (h : Fixed.init n perm = some s) (ops : List FOp) :
+    let t := s.run ops
+    (t.burned = 0 → ∀ id, 1 ≤ id → id ≤ n → (id ∈ t.ids ∨ id ∈ t.minted)) ∧
+    t.ids.length + t.minted.length + t.burned = n ∧ (∀ id ∈ t.ids, id ∉ t.minted) := by
+  obtain ⟨hi, hn⟩ := C01_inv n perm s h ops
+  have hlen : (s.run ops).ids.length = (s.run ops).pos.length := by simp [Fixed.ids]
+  refine ⟨fun hb id h1 h2 => ?_, by rw [hlen, hi.total, hn], hi.fresh⟩
+  have hnd : ((s.run ops).ids ++ (s.run ops).minted).Nodup :=
+    List.nodup_append.mpr ⟨hi.nodup, hi.mnodup, fun a ha b hb' hab => hi.fresh a ha (hab ▸ hb')⟩
+  have hr : ∀ y ∈ (s.run ops).ids ++ (s.run ops).minted, 1 ≤ y ∧ y ≤ n := fun y hy => by
+    rcases List.mem_append.mp hy with hy | hy
+    · exact hn ▸ hi.range y hy
+    · exact hn ▸ hi.mrange y hy
+  have hl : n ≤ ((s.run ops).ids ++ (s.run ops).minted).length := by
+    have := hi.total; rw [List.length_append, hlen]; omega
+  exact List.mem_append.mp (mem_of_nodup_range_length _ n hnd hr hl id h1 h2)
+
+/-- sequential family: soundness of the gate rule … -/
+theorem C01_seq_supplyRejects_sound (s : Seq) (op : QOp) (h : s.supplyRejects op = true) : s.step op = none := by
+  cases op with
+  | mint g o =>
+    have hz : s.mintable = some 0 := by simpa [Seq.supplyRejects] using h
+    exact C01_seq_no_mint_at_zero s g o hz
+  | burnRemaining g =>
+    have hz : s.burnRemaining = none := by simpa [Seq.supplyRejects] using h
+    cases g <;> simp [Seq.step, hz]
+  | purge g =>
+    have hz : s.purge = none := by simpa [Seq.supplyRejects] using h
+    cases g <;> simp [Seq.step, hz]
+  | collBurn g id =>
+    have hz : id ∉ s.coll.ids := by simpa [Seq.supplyRejects] using h
+    cases g <;> simp [Seq.step, Coll.burn, hz]
+  | collTransfer g id to =>
+    have hz : id ∉ s.coll.ids := by simpa [Seq.supplyRejects] using h
+    cases g <;> simp [Seq.step, Coll.transfer, hz]
+  | noise g => simp [Seq.supplyRejects] at h
+
+/-- … and frame: Purge, holder burns / transfers and ANY other message leave `TOKEN_INDEX`, `TOTAL_MINT_COUNT`, the
+counter, the cap, the burnt flag and the issued ids alone (validated against the contracts as for `C01_frame`) -/
+theorem C01_seq_frame (s s' : Seq) (op : QOp) (hop : op.touchesSupply = false) (h : s.step op = some s') :
+    s'.tokenIndex = s.tokenIndex ∧ s'.totalMint = s.totalMint ∧ s'.mintable = s.mintable ∧ s'.cap = s.cap ∧
+      s'.burned = s.burned ∧ s'.issued = s.issued := by
+  cases op with
+  | mint g o => simp [QOp.touchesSupply] at hop
+  | burnRemaining g => simp [QOp.touchesSupply] at hop
+  | purge g => rw [C01_seq_purge_frame s s' g h]; exact ⟨rfl, rfl, rfl, rfl, rfl, rfl⟩
+  | collBurn g i =>
+    cases g <;> simp [Seq.step] at h
+    obtain ⟨c, _, rfl⟩ := h; exact ⟨rfl, rfl, rfl, rfl, rfl, rfl⟩
+  | collTransfer g i to =>
+    cases g <;> simp [Seq.step] at h
+    obtain ⟨c, _, rfl⟩ := h; exact ⟨rfl, rfl, rfl, rfl, rfl, rfl⟩
+  | noise g => cases g <;> simp [Seq.step] at h; subst h; exact ⟨rfl, rfl, rfl, rfl, rfl, rfl⟩
+
+theorem C01_seq_frame_history (s : Seq) (ops : List QOp) (hops : ∀ op ∈ ops, op.touchesSupply = false) :
+    (s.run ops).tokenIndex = s.tokenIndex ∧ (s.run ops).totalMint = s.totalMint ∧
+      (s.run ops).mintable = s.mintable ∧ (s.run ops).issued = s.issued := by
+  induction ops generalizing s with
+  | nil => exact ⟨rfl, rfl, rfl, rfl⟩
+  | cons op ops ih =>
+    rw [Seq.run_cons]
+    have hrest : ∀ o ∈ ops, o.touchesSupply = false := fun o ho => hops o (List.mem_cons_of_mem _ ho)
+    unfold Seq.step'
+    cases h : s.step op with
+    | none => simpa using ih s hrest
+    | some s' =>
+      simp only [Option.getD_some]
+      obtain ⟨a1, a2, a3, _, _, a6⟩ := C01_seq_frame s s' op (hops op (List.mem_cons_self)) h
+      obtain ⟨b1, b2, b3, b4⟩ := ih s' hrest
+      exact ⟨b1.trans a1, b2.trans a2, b3.trans a3, b4.trans a6⟩
+
 /-! ## Non-vacuity: the hypotheses are satisfiable and the operations do succeed -/
 
 example : (Fixed.init 3 [2, 3, 1]).isSome = true := by decide
